@@ -467,6 +467,12 @@ def check(chk):
         ok = all(any(k.replace(" ", "") == nd and v is True for k, v in g.items()) for nd in need)
         chk.ob("PAIR-3", "the armed record is matched on (state, ms, callback)", ok, f.where(n.ast), detail="guards %s" % sorted(g.items()),
                construct=f.ident, text="timed purge match")
+    # every pending hold-time deadline of a switch (and the wake-up) is dropped in one place only: when the switch changes state.  Removing one
+    # handler removes that handler's entries; it never cancels the deadlines of the others
+    ctc = [(m_.qualname, c) for m_ in repo.cls(SC, K).methods.values() for c in m_.calls() if call_attr(c) == "_cancel_timed_handlers"]
+    chk.ob("DOM-8", "the pending hold-time deadlines of a switch are dropped wholesale only by a state change (process_switch_obj)",
+           {q for q, _ in ctc} == {K + ".process_switch_obj"}, "%s:%d" % (SC, ctc[0][1].lineno if ctc else 1), detail="called from %s" % sorted({q for q, _ in ctc}),
+           construct=SC + "::" + K + "._cancel_timed_handlers", text="callers of _cancel_timed_handlers")
     f = repo.func(SC, K + "._cancel_timed_handlers")
     chk.analysed(f)
     cfg = f.cfg()
@@ -883,6 +889,7 @@ def battery():
         M("by_num swaps state and logical", SC, "self.process_switch_obj(switch, state, logical, timestamp)", "self.process_switch_obj(switch, logical, state, timestamp)", "FWD-3"),
         M("only the first matching registration removed", SC, "                self.registered_switches[switch][state].remove(entry)\n", "                self.registered_switches[switch][state].remove(entry)\n                break\n", "PAIR-3"),
         M("waiter's immediate answer ignores the hold time", SC, "                if self.is_state(switch, state, ms):", "                if self.is_state(switch, state):", "DROP-0"),
+        M("removing one pending handler drops every pending deadline of the switch", SC, "                    if not (entry.state == state and entry.ms == ms and entry.callback == callback)]\n", "                    if not (entry.state == state and entry.ms == ms and entry.callback == callback)]\n            if not all(self._active_timed_switches[switch].values()):\n                self._cancel_timed_handlers(switch)\n", "DOM-8"),
         M("remove by key does nothing", SC, "        self.remove_switch_handler_obj(switch_handler.switch_name, switch_handler.callback, switch_handler.state,\n                                       switch_handler.ms)\n\n    def remove_switch_handler_by_keys", "        pass\n\n    def remove_switch_handler_by_keys", "FWD-3"),
         M("remove by key drops ms", SC, "switch_handler.state,\n                                       switch_handler.ms)", "switch_handler.state)", "FWD-3", nth=0),
         M("Switch.remove_handler swaps state/ms", SW, "remove_switch_handler_obj(\n            self, callback, state, ms)", "remove_switch_handler_obj(\n            self, callback, ms, state)", "FWD-3"),
